@@ -63,28 +63,35 @@ Theorem C05_header_of_document : forall kv o, osm_unmarshal (JObj kv) = Ok o ->
 Proof. exact header_of_document. Qed.
 Print Assumptions C05_header_of_document.
 
-(* 3. json_shape.  Full statement (kept; proved below in parts):
-        forall mo o, wf_osm o = true -> osmjson_shape (osm_marshal mo o) = true.
-      Proved: "elements" is an array holding exactly Objects() encoded; every element kind and
-      the bounds element carry their osmjson type; tags always encode as an object of strings,
-      way nodes as an array of integer ids, members as an array (never null) — for all values.
-      Missing for the full statement: the lookups of "tags"/"nodes"/"members" inside the
-      generic struct encoding (lemma fields_rt covers them for decoding only).  The composite
-      predicate osmjson_shape is evaluated on every implementation output by the harness. *)
-Theorem C05_json_shape_partial : forall mo,
-  (forall o, exists kv, osm_marshal mo o = JObj kv /\ lookup "elements" kv = Some (JArr (objects mo o)))
-  /\ (forall k v, wf (ktype k) v = true ->
-        find_type (enc mo (ktype k) v) = Ok (kname k) /\ mem_str (kname k) osmjson_types = true)
-  /\ (forall b, wf t_Bounds b = true -> find_type (enc mo t_jsonBoundsElement (bounds_element b)) = Ok "bounds")
-  /\ (forall l, tags_object (enc mo TTags (VList l)) = true)
+(* 3. json_shape: the output is osmjson — an "elements" array (never null) of objects each
+      carrying its type from the osmjson vocabulary, tags a JSON object of strings, way nodes an
+      array of integer ids, relation members an array that is never null whose entries have
+      type/ref/role (predicate Spec.osmjson_shape, names written independently of /repo), for
+      every well-formed OSM value and every codec map order.  The schema conditions it needs
+      are computed on the generated struct descriptions. *)
+Theorem C05_json_shape : forall mo o, wf_osm o = true -> osmjson_shape (osm_marshal mo o) = true.
+Proof. exact json_shape. Qed.
+Print Assumptions C05_json_shape.
+
+Theorem C05_element_shape : forall mo nm fs v, elem_schema_ok nm fs = true ->
+  wf (TStruct fs) v = true -> element_shape (enc mo (TStruct fs) v) = true.
+Proof. exact element_shape_ok. Qed.
+Print Assumptions C05_element_shape.
+
+Theorem C05_generated_elem_schemas_ok :
+  elem_schema_ok "node" f_Node && elem_schema_ok "way" f_Way && elem_schema_ok "relation" f_Relation
+  && elem_schema_ok "changeset" f_Changeset && elem_schema_ok "note" f_Note && elem_schema_ok "user" f_User = true.
+Proof. exact generated_elem_schemas_ok. Qed.
+
+(* the three special encodings hold for ALL values, well-formed or not *)
+Theorem C05_special_encodings : forall mo,
+  (forall l, tags_object (enc mo TTags (VList l)) = true)
   /\ (forall fs l, id_array (enc mo (TWayNodes fs) (VList l)) = true)
   /\ (forall t l, exists js, enc mo (TMembers t) (VList l) = JArr js).
 Proof.
-  intros mo. split; [exact (elements_is_array mo)|]. split; [exact (element_carries_type mo)|].
-  split; [exact (bounds_carries_type mo)|]. split; [exact (tags_is_object mo)|].
-  split; [exact (waynodes_is_id_array mo)|exact (members_never_null mo)].
+  intros mo. split; [exact (tags_is_object mo)|]. split; [exact (waynodes_is_id_array mo)|exact (members_never_null mo)].
 Qed.
-Print Assumptions C05_json_shape_partial.
+Print Assumptions C05_special_encodings.
 
 (* 4. codec_independent: whichever lawful codec writes and whichever reads (laws: every codec
       reads every codec's output as the same tree; map order is a permutation), the results
